@@ -86,6 +86,7 @@ def optCps? (s : String) : Option (Option Str) :=
 * `hash.sig kind=taskw name=<cps>`
 * `hash.sig kind=dir root=none|<cps> pattern=<cps> [name=<cps>]`
 * `hash.sig kind=python arg=<cps> tp=<I…|S…,…> tname=<cps> tpath=none|<cps>`  (`kind=python0`: no node info)
+* `hash.pywrap hash=on|off v=<val>`                     → `ok:<state of the dependency wrapper> <state of the node>`
 * `hash.memo.reset`                                     → `ok`
 * `hash.state path=<cps> mt=<hash(st_mtime)> content=none|<bytes>` → `none` | `<pre-image of the state>`
 * `path.norm cps=<cps>`                                 → `<cps of normpath>`
@@ -127,6 +128,17 @@ def hashHandle (st : HashSt) (cmd : String) (a : Args) : HashSt × String :=
       | _, _, _, _ => (st, "bad-op")
     | "python0" => (st, out (sigPythonNode standIn none))
     | _ => (st, "bad-op")
+  | "hash.pywrap" =>
+    -- the dependency wrapper of `collect_dependency` around a PythonNode(hash=on|off), after the producer saved `v`
+    let h : Option HashOpt := match a.get "hash" with | "on" => some .on | "off" => some .off | _ => none
+    match h, val? (a.get "v") with
+    | some h, some v =>
+      let n : PNode := ⟨h, none⟩
+      let w : PWrapper := { (wrapDependency n) with inner := n.save v }
+      (st, match stateWrapper standIn w, statePythonNodeOpt standIn h (some v) with
+           | some x, some y => "ok:" ++ out x ++ " " ++ out y
+           | _, _ => "none")
+    | _, _ => (st, "bad-op")
   | "hash.memo.reset" => ({ memo := {} }, "ok")
   | "hash.state" =>
     match cps? (a.get "path"), (a.get "mt").toInt? with
